@@ -79,7 +79,10 @@ func checkNativeAuthCase(c NativeAuthCase, o *vt.Obs) error {
 	allowCond := func(cond transaction.WitnessCondition, action transaction.WitnessAction) []transaction.WitnessRule {
 		return []transaction.WitnessRule{{Action: action, Condition: cond}}
 	}
-	sh := func(h util.Uint160) *transaction.ConditionScriptHash { c := transaction.ConditionScriptHash(h); return &c }
+	sh := func(h util.Uint160) *transaction.ConditionScriptHash {
+		c := transaction.ConditionScriptHash(h)
+		return &c
+	}
 	tr := transaction.ConditionBoolean(true)
 	want := false
 	s := transaction.Signer{Account: owner.Hash}
